@@ -40,7 +40,15 @@ type Stream struct {
 	Reposts  int    `json:"reposts,omitempty"`
 	// agg: destination Leaver-1 (a plain hub client) leaves the stream half way; wsbig: client pings between the
 	// messages, and a last message that announces 5000 bytes, sends 1000 and drops the connection
-	Leaver     int  `json:"leaver,omitempty"`
+	Leaver int `json:"leaver,omitempty"`
+	// rev: the same destination URL is subscribed to the feed by TWO rules with different ids (two connections of one
+	// destination); what the destination sends must reach the feed clients once and must not come back to it
+	TwinRules bool `json:"twin_rules,omitempty"`
+	// stall: the destination stops reading for StallMs (> 10 s: longer than any write deadline) while the feed posts
+	// PostKB of traffic, then reads again; afterwards it sends Count messages of Blk bytes to every connection the
+	// host has with it: the local feed client must get each of them once
+	StallMs    int  `json:"stall_ms,omitempty"`
+	PostKB     int  `json:"post_kb,omitempty"`
 	Pings      bool `json:"pings,omitempty"`
 	BrokenTail bool `json:"broken_tail,omitempty"`
 	// websocket-out ("wsout"): Count hub messages of Blk bytes pushed through the hub towards a real websocket
@@ -111,6 +119,8 @@ type Observed struct {
 	Frames    [][]byte   `json:"frames,omitempty"` // wsout: the websocket messages the slow client received
 	FrameLens []int      `json:"frame_lens,omitempty"`
 	Conns     []int      `json:"conns,omitempty"`
+	Back      [][]byte   `json:"back,omitempty"`      // rev with twin rules: what came back to the destination over any of its connections
+	NConns    int        `json:"nconns,omitempty"`    // stall: connections the host had with the destination when it sent
 	PerDest   [][][]byte `json:"per_dest,omitempty"`  // agg: what each destination received, in order
 	RecvText  []bool     `json:"recv_text,omitempty"` // wstext: for every message received (Frames), whether it came as a text message     // dest: for every message received (Frames), the number of the connection it came over
 	TapLens   []int      `json:"tap_lens,omitempty"`  // lengths of the hand-offs (kept when the bytes are dropped from a report)
@@ -162,7 +172,7 @@ func wsoutIndex(piece []byte) int {
 }
 
 func (s Stream) total() int {
-	if s.Kind == "wsout" || s.Kind == "dest" || s.Kind == "agg" {
+	if s.Kind == "wsout" || s.Kind == "dest" || s.Kind == "agg" || s.Kind == "stall" {
 		return s.Blk * s.Count
 	}
 	if s.Kind == "wsbig" {
@@ -450,7 +460,33 @@ func (s Stream) coqText() string {
 	return lib.App("CS", lib.N(0), lib.List([]string{lib.Nat(2)}), lib.List(evs), lib.List(tap), lib.List([]string{lib.List(reads)}))
 }
 
+// coqStall: after the stall the destination's messages are hand-offs of the websocket path; the feed client is
+// the one consumer (Busy when it missed one)
+func (s Stream) coqStall() string {
+	o := s.Obs
+	evs, tap, reads := []string{}, []string{}, []string{}
+	input := s.wsoutInput()
+	gi := 0
+	for k := 0; k < s.Count; k++ {
+		m := lib.App("WsMsg", lib.App("wmsg", lib.N(s.Seed), lib.N(uint64(s.Blk)), lib.Nat(k)))
+		if gi < len(o.Frames) && wsoutIndex(o.Frames[gi]) == k {
+			evs = append(evs, m, lib.App("Consume", lib.Nat(0)))
+			gi++
+		} else {
+			evs = append(evs, lib.App("Busy", lib.Nat(0)), m)
+		}
+		tap = append(tap, obsbLimit(input[k*s.Blk:(k+1)*s.Blk], 128))
+	}
+	for _, f := range o.Frames {
+		reads = append(reads, obsbLimit(f, 128))
+	}
+	return lib.App("CS", lib.N(0), lib.List([]string{lib.Nat(1)}), lib.List(evs), lib.List(tap), lib.List([]string{lib.List(reads)}))
+}
+
 func (s Stream) coq() string {
+	if s.Kind == "stall" {
+		return s.coqStall()
+	}
 	if s.Kind == "agg" {
 		return s.coqAgg()
 	}
@@ -505,6 +541,9 @@ func (s Stream) coq() string {
 
 func (s Stream) describe() string {
 	d := s.describeKind()
+	if s.TwinRules {
+		d += " [the destination is subscribed by TWO rules with different ids: two connections of one destination]"
+	}
 	if s.LogLevel != "" || s.Headers || s.Reposts > 0 || s.Leaver > 0 || s.Pings || s.BrokenTail {
 		d += fmt.Sprintf(" [log level %q, odd upgrade headers %v, identical rule re-posts %d, leaver %d, pings %v, broken last message %v]", s.LogLevel, s.Headers, s.Reposts, s.Leaver, s.Pings, s.BrokenTail)
 	}
@@ -516,6 +555,10 @@ func (s Stream) describeKind() string {
 	if s.Kind == "wsout" {
 		return fmt.Sprintf("wsout stream %q seed=%d: %d hub messages of %d bytes towards a websocket client of /ws/<feed> that reads %d messages then pauses %d us (SO_RCVBUF %d)",
 			s.Name, s.Seed, s.Count, s.Blk, s.ReadBurst, s.ReadPauseUs, s.Rcvbuf)
+	}
+	if s.Kind == "stall" {
+		return fmt.Sprintf("stall stream %q seed=%d: a destination that stops reading for %d ms while the feed posts %d kB, reads again, and then sends %d messages of %d bytes over every connection the host has with it to a local feed client",
+			s.Name, s.Seed, s.StallMs, s.PostKB, s.Count, s.Blk)
 	}
 	if s.Kind == "wsbig" {
 		nf := 0
@@ -582,6 +625,8 @@ func genStream(r *lib.Rng, kind string, i int) Stream {
 		}
 	case "dest", "wstext":
 		s.Reposts = []int{0, 1, 2}[r.Intn(3)]
+	case "rev":
+		s.TwinRules = r.Chance(1, 2)
 	case "wsbig":
 		s.Pings, s.BrokenTail = r.Chance(1, 2), r.Chance(1, 2)
 	}
@@ -716,7 +761,7 @@ func genTextMsgs(r *lib.Rng) []TMsg {
 		out = append(out, TMsg{Text: r.Chance(3, 4), Data: append([]byte{}, text[p:p+n]...)})
 		p += n
 	}
-	stray := [][]byte{{0xff}, {0xc2}, {0xb0}, {0xe2, 0x82}, {0xf0, 0x9f, 0x98}, {0xc0, 0x80}, {0xed, 0xa0, 0x80}, {'o', 'k', 0xfe, 'o', 'k'}, []byte("\u00b0"), {}}
+	stray := [][]byte{[]byte("\xef\xbb\xbfbom first"), {0xef, 0xbb, 0xbf}, {0xff}, {0xc2}, {0xb0}, {0xe2, 0x82}, {0xf0, 0x9f, 0x98}, {0xc0, 0x80}, {0xed, 0xa0, 0x80}, {'o', 'k', 0xfe, 'o', 'k'}, []byte("\u00b0"), {}}
 	for i := 0; i < 6; i++ {
 		m := TMsg{Text: r.Chance(3, 4), Data: stray[r.Intn(len(stray))]}
 		at := r.Intn(len(out) + 1)
@@ -753,6 +798,8 @@ func corpus(tier string) []Stream {
 		// the same at trace log level, with odd upgrade headers and with the destination rules re-posted unchanged
 		{Kind: "agg", Name: "agg-repost-trace", Seed: 76, Blk: 64, Count: 80, Feeds: 2, Order: "rule-first", DestKinds: []string{"rwc", "hub", "rwc"}, LogLevel: "trace", Headers: true, Reposts: 2},
 		{Kind: "agg", Name: "agg-repost-leaver", Seed: 77, Blk: 64, Count: 80, Feeds: 1, Order: "dest-first", DestKinds: []string{"hub", "rwc", "hub"}, Reposts: 1, Leaver: 1},
+		{Kind: "rev", Name: "rev-twin-rules", Seed: 80, TwinRules: true, Consumers: []ConsSpec{{Cap: 1, Policy: "queue"}},
+			Bursts: []Burst{{Chunks: []int{40, 33, 200}, GapUs: []int{0, 0, 0}, PauseMs: 5}, {Chunks: []int{64, 1000}, GapUs: []int{0, 0}, PauseMs: 5}}},
 		{Kind: "rev", Name: "rev-trace", Seed: 78, LogLevel: "trace", Headers: true, Consumers: []ConsSpec{{Cap: 1, Policy: "queue"}},
 			Bursts: []Burst{{Chunks: []int{40, 33, 200}, GapUs: []int{0, 0, 0}, PauseMs: 5}, {Chunks: []int{32, 1000, 35}, GapUs: []int{0, 0, 0}, PauseMs: 5}}},
 		{Kind: "dest", Name: "dest-repost-debug", Seed: 79, Blk: 256, Count: 600, CutMin: 3, CutMax: 8, LogLevel: "debug", Reposts: 2},
